@@ -2208,7 +2208,7 @@ Definition valid_nums : node -> Prop :=
 Corollary node_of_wire_to_wire_valid n : valid_nums n -> node_of_wire (node_to_wire n) = Some n.
 Proof.
   intros H. apply node_of_wire_to_wire. revert H. apply all_nodes_impl.
-  intros [] Hm; simpl; auto. apply rD_wD. exact Hm.
+  intros m Hm. destruct m; try exact I. apply rD_wD. exact Hm.
 Qed.
 
 Print Assumptions node_of_wire_to_wire.
